@@ -3,6 +3,7 @@
 use crate::apply::{self, Built};
 use crate::fixture::{binds_of, show_outcome, Fixture};
 use crate::gen::{clause_kinds, Cfg, Gen};
+use crate::refsql::Ref;
 use crate::render::{entry_points_of, inherent_forms};
 use crate::spec::*;
 use crate::util::*;
@@ -134,6 +135,26 @@ pub fn check_spec(ctx: &Ctx, rep: &mut Report, fx: Option<&Fixture>, n: u64, d: 
     }
     // R.subst: inline == parameterised with literals spliced in
     let lits: Vec<String> = vals.iter().map(|v| qb(d).value_to_string(v)).collect();
+    // R.literal: each spliced literal denotes what the independent reference spelling of the value denotes
+    // (compared as decoded tokens; optional value types are C03's business)
+    {
+        let r = Ref::new(d, false);
+        for (v, l) in vals.iter().zip(&lits) {
+            let want = r.lit(v);
+            if want == *l {
+                continue;
+            }
+            let (a, b) = (lex(d, l), lex(d, &want));
+            let same = match (&a, &b) {
+                (Ok(a), Ok(b)) => a.len() == b.len() && a.iter().zip(b.iter()).all(|(x, y)| x.tok == y.tok),
+                _ => false,
+            };
+            if !same {
+                rep.violation("R.literal", d.name(), format!("inlined literal of {} denotes another value", format!("{v:?}").split('(').next().unwrap_or("?").to_string()), json!({"value": format!("{v:?}"), "literal": l, "reference": want}), ctx.shard, n);
+                return;
+            }
+        }
+    }
     match splice(d, &param, &lits) {
         Ok(s) if s == inline => {
             rep.count("placeholders_substituted", lits.len() as u64);
